@@ -430,5 +430,5 @@ def run(ctx):
     ctx.parallel(_pairs_worker, [(k, ns2, quick) for k in range(ns2)], nproc=ns2)
     ctx.exhaustive["build; set-config; evaluate; set-config; evaluate over 8 formulas x 9 mode pairs x frame pairs x part pairs"
                    + (" (quick: 3 frames, same part twice)" if quick else " (4 frames, all part pairs)")] = {"complete": True}
-    per = 25 if quick else 250
+    per = 50 if quick else 400
     ctx.parallel(_machine_worker, [(k, per, 30) for k in range(ns)], nproc=ns)
